@@ -1080,8 +1080,9 @@ def q_purge_race(o, tier):
     the Gatekeeper's block connection that purges outdated users (HashMap::remove under the users lock). A authenticates the
     user (first critical section on `users`) and looks the same user up again (second critical section). Bad run: B's removal
     is ordered after A's authentication section and before A's next look-up, and A unwraps that look-up: the handler panics.
-    Only the *first* look-up after the authentication is examined: once it has answered "not expired", a purge needs
-    expiry_delta + 1 further blocks (assumption: fewer than that connect during one request)."""
+    Every unwrap of a user-dependent Option/Result after the authentication section is examined, whether it sits after a
+    look-up (has_subscription_expired / get_user_info) or inside a later users section (get_mut().unwrap()): heights can jump
+    past expiry + grace within one request (catch-up after an outage while the request waits for a lock, forced update)."""
     funcs, idx, t_mir, err = load_mir('teos')
     if funcs is None:
         return {'verdict': 'inconclusive', 'reason': 'MIR dump failed'}
@@ -1096,7 +1097,15 @@ def q_purge_race(o, tier):
         if re.search(r'HashMap::<(?:UserId|TowerId), UserInfo>::(remove|retain|clear)(?:::<.*>)?$', re.sub(r'(?:teos_common::|gatekeeper::|std::collections::|hash_map::)', '', c)):
             return 'user.remove'
         return None
+    # Gatekeeper::delete_appointments is reached from the handlers only through store_triggered_appointment, with
+    # `refund = const false`: its refunding branch (which looks users up) is not part of a handler. Checked on the MIR.
+    st = [n for n in funcs if re.match(r'^watcher::<impl at .*?>::store_triggered_appointment$', n)]
+    for n in st:
+        for b_ in funcs[n].blocks.values():
+            if b_.term['kind'] == 'call' and re.search(r'Gatekeeper::delete_appointments$', b_.term['callee']) and (not b_.term.get('args') or b_.term['args'][-1].strip() != 'const false'):
+                return {'verdict': 'inconclusive', 'reason': 'store_triggered_appointment calls delete_appointments with a non-constant refund flag'}
     sk = SK.Skeletons(funcs, idx, teos_lock_name, alpha,
+                      inline_filter=lambda t: not re.search(r'gatekeeper::<impl at .*?>::delete_appointments$', t),
                       event_filter=lambda ev: ev[0] == 'call' or (ev[0] in ('acq', 'rel') and ev[1] == 'users'))
     fb = [n for n in funcs if re.match(r'^gatekeeper::<impl at .*?>::filtered_block_connected$', n)]
     if len(fb) != 1:
@@ -1117,30 +1126,36 @@ def q_purge_race(o, tier):
         for ta in ta_all:
             ia = ta.index(('call', 'auth'))
             rel_auth = next((k for k in range(ia, len(ta)) if ta[k] == ('rel', 'users')), None)
-            il = next((k for k in range(ia + 1, len(ta)) if ta[k] == ('call', 'user.lookup')), None)
-            if rel_auth is None or il is None:
+            if rel_auth is None:
                 continue
-            acq_l = next((k for k in range(il, len(ta)) if ta[k] == ('acq', 'users')), None)
-            rel_l = next((k for k in range(il, len(ta)) if ta[k] == ('rel', 'users') and k > (acq_l or 0)), None)
-            if acq_l is None or rel_l is None:
-                continue
-            # is the look-up's result unwrapped (before the next look-up)?
-            nxt = next((k for k in range(rel_l, len(ta)) if (ta[k][0] == 'call' and ta[k][1] in ('user.unwrap', 'user.lookup')) or ta[k] == ('acq', 'users')), None)
-            if nxt is None or ta[nxt] != ('call', 'user.unwrap'):
-                continue
-            for tb in tb_all:
-                ir = tb.index(('call', 'user.remove'))
-                text = _interleave_query(ta, tb, [('a', min(rel_auth, acq_l - 1) if rel_auth < acq_l else rel_auth, 'b', ir), ('b', ir, 'a', acq_l)], None)
-                v, out, dt = smt(text)
-                queries += 1
-                solver_s += dt
-                if v == 'inconclusive':
-                    return {'verdict': 'inconclusive', 'reason': out[:200]}
-                if v == 'sat':
-                    failed.append({'description': 'Watcher::%s unwraps a look-up of the user it authenticated in an earlier critical section: a block that purges the user in between aborts the handler' % entry,
-                                   'function': 'Watcher::%s | Gatekeeper::filtered_block_connected' % entry,
-                                   'schedule': {'A': [list(e) for e in ta], 'B': [list(e) for e in tb], 'model': out[:400]}})
-                    hit = True
+            # every unwrap of a user-dependent value after the authentication section: which users section produced it?
+            for k in range(rel_auth + 1, len(ta)):
+                if ta[k] != ('call', 'user.unwrap'):
+                    continue
+                acqs = [j for j in range(rel_auth + 1, k) if ta[j] == ('acq', 'users')]
+                if not acqs:
+                    continue
+                acq_k = acqs[-1]        # inside that section (get_mut().unwrap()) or right after it (look-up().unwrap())
+                between = [j for j in range(acq_k, k) if ta[j] == ('acq', 'users')]
+                if len(between) != 1:
+                    continue
+                for tb in tb_all:
+                    ir = tb.index(('call', 'user.remove'))
+                    text = _interleave_query(ta, tb, [('a', rel_auth, 'b', ir), ('b', ir, 'a', acq_k)], None)
+                    v, out, dt = smt(text)
+                    queries += 1
+                    solver_s += dt
+                    if v == 'inconclusive':
+                        return {'verdict': 'inconclusive', 'reason': out[:200]}
+                    if v == 'sat':
+                        inside = not any(ta[j] == ('rel', 'users') for j in range(acq_k, k))
+                        failed.append({'description': 'Watcher::%s unwraps a look-up of the user it authenticated in an earlier critical section%s: a block that purges the user in between aborts the handler'
+                                                      % (entry, ' (with the users lock held: the mutex is poisoned)' if inside else ''),
+                                       'function': 'Watcher::%s | Gatekeeper::filtered_block_connected' % entry,
+                                       'schedule': {'A': [list(e) for e in ta], 'B': [list(e) for e in tb], 'unwrap_at': k, 'model': out[:400]}})
+                        hit = True
+                        break
+                if hit:
                     break
             if hit:
                 break
@@ -1151,6 +1166,80 @@ def q_purge_race(o, tier):
             solver_s += dt
     return {'verdict': 'fails' if failed else 'holds', 'failed': failed, 'queries': queries, 'solver_s': solver_s,
             'witness': wit, 'functions': sorted(short(x) for x in sk.functions_seen)}
+
+
+def q_purge_vs_store(o, tier):
+    """C11.M3: thread A = Watcher::add_appointment, thread B = the Gatekeeper's block connection that purges outdated users
+    (memory first, then DBM::batch_remove_users, which cascades to the user's appointments). A charges the slots (users
+    section inside Gatekeeper::add_update_appointment) and stores the row later (DBM::store_appointment /
+    update_appointment under the dbm lock). Bad run: B removes the user after A's charge and deletes the user's rows before
+    A's store, so the store violates the foreign key (or updates nothing) and A unwraps the error with the dbm and
+    locator-cache locks held: both mutexes are poisoned and the tower stops serving."""
+    funcs, idx, t_mir, err = load_mir('teos')
+    if funcs is None:
+        return {'verdict': 'inconclusive', 'reason': 'MIR dump failed'}
+
+    def alpha(c):
+        if re.search(r'Gatekeeper::add_update_appointment$', c):
+            return 'charge'
+        m = re.match(r'^DBM::(store_appointment|update_appointment|batch_remove_users)$', c)
+        if m:
+            return 'DBM::' + m.group(1)
+        if re.search(r'^(?:std::result::)?Result::<.*(?:rusqlite::Error|dbm::Error)>::(unwrap|expect)$', c):
+            return 'sql.unwrap'
+        if re.search(r'HashMap::<(?:UserId|TowerId), UserInfo>::(remove|retain|clear)(?:::<.*>)?$', re.sub(r'(?:teos_common::|gatekeeper::|std::collections::|hash_map::)', '', c)):
+            return 'user.remove'
+        return None
+    sk = SK.Skeletons(funcs, idx, teos_lock_name, alpha,
+                      inline_filter=lambda t: not re.match(r'^dbm::', t) and not re.search(r'gatekeeper::<impl at .*?>::delete_appointments$', t),
+                      event_filter=lambda ev: ev[0] == 'call' or (ev[0] in ('acq', 'rel') and ev[1] in ('users', 'dbm')))
+    fa = [n for n in funcs if re.match(r'^watcher::<impl at .*?>::add_appointment$', n)]
+    fb = [n for n in funcs if re.match(r'^gatekeeper::<impl at .*?>::filtered_block_connected$', n)]
+    if len(fa) != 1 or len(fb) != 1:
+        return {'verdict': 'inconclusive', 'reason': 'entry points not found'}
+    stores = (('call', 'DBM::store_appointment'), ('call', 'DBM::update_appointment'))
+    ta_all = sorted(t for t in set(sk.traces(fa[0])) if ('call', 'charge') in t and any(e in t for e in stores))
+    tb_all = sorted(t for t in set(sk.traces(fb[0])) if ('call', 'user.remove') in t and ('call', 'DBM::batch_remove_users') in t)
+    if sk.problems or not ta_all or not tb_all:
+        return {'verdict': 'inconclusive', 'reason': 'skeleton not found: %s (A=%d, B=%d traces)' % (sk.problems[:2], len(ta_all), len(tb_all))}
+    failed, queries, solver_s = [], 0, 0.0
+    for ta in ta_all:
+        ic = ta.index(('call', 'charge'))
+        rel_c = next((k for k in range(ic, len(ta)) if ta[k] == ('rel', 'users')), None)
+        if rel_c is None:
+            continue
+        for k in range(rel_c, len(ta)):
+            if ta[k] not in stores:
+                continue
+            nxt = next((j for j in range(k + 1, len(ta)) if ta[j][0] == 'call'), None)
+            if nxt is None or ta[nxt] != ('call', 'sql.unwrap'):
+                continue
+            # is the store inside the users section of the charge? (then the purge cannot come in between)
+            for tb in tb_all:
+                ir = tb.index(('call', 'user.remove'))
+                ib = tb.index(('call', 'DBM::batch_remove_users'))
+                text = _interleave_query(ta, tb, [('a', rel_c, 'b', ir), ('b', ib, 'a', k)], None)
+                v, out, dt = smt(text)
+                queries += 1
+                solver_s += dt
+                if v == 'inconclusive':
+                    return {'verdict': 'inconclusive', 'reason': out[:200]}
+                if v == 'sat':
+                    failed.append({'description': 'Watcher::add_appointment unwraps the result of %s for a user whose purge (memory, then rows) can be ordered between the charge and the store: foreign-key failure unwrapped with the dbm and locator-cache locks held' % ta[k][1],
+                                   'function': 'Watcher::add_appointment | Gatekeeper::filtered_block_connected',
+                                   'schedule': {'A': [list(e) for e in ta], 'B': [list(e) for e in tb], 'model': out[:400]}})
+                    break
+            if failed:
+                break
+        if failed:
+            break
+    if not queries:
+        v, out, dt = smt('(set-logic ALL)\n(assert false)\n(check-sat)\n')
+        queries += 1
+        solver_s += dt
+    return {'verdict': 'fails' if failed else 'holds', 'failed': failed, 'queries': queries, 'solver_s': solver_s,
+            'witness': {'A_traces': len(ta_all), 'B_traces': len(tb_all), 'sample_A': [list(e) for e in ta_all[0]], 'sample_B': [list(e) for e in tb_all[0]]},
+            'functions': sorted(short(x) for x in sk.functions_seen)}
 
 
 def q_retry_data_kept(o, tier):
@@ -1588,6 +1677,7 @@ QUERIES = {
     'insert_conflict': q_insert_conflict,
     'purge_race': q_purge_race,
     'retry_data_kept': q_retry_data_kept,
+    'purge_vs_store': q_purge_vs_store,
 }
 
 
